@@ -36,7 +36,7 @@ pub fn run(ctx: &mut Ctx) {
     for (n, ok) in r9::selftest(false) {
         ctx.selftest(&n, ok);
     }
-    ctx.require(&["ha=q(N-1)+r", "ha_r=0", "ha_r=N-2", "ha_top_limb_ones", "ha_all_ff", "ha_random", "ha_64_bytes", "ha_small", "h1", "h2", "extract_sign", "extract_enc", "extract_exch", "extract_fails_when_t1=0", "extract_ok_next_to_failure", "annex_keys", "id_empty", "id_long", "h1_same_id_all_hids", "ha_r_limb_ladder", "t1_limb_ladder", "t1_carry_chain", "id_beyond_2^16_bits", "extract_id_beyond_2^16_bits", "t2_near_group_order"]);
+    ctx.require(&["ha=q(N-1)+r", "ha_r=0", "ha_r=N-2", "ha_top_limb_ones", "ha_all_ff", "ha_random", "ha_64_bytes", "ha_small", "h1", "h2", "extract_sign", "extract_enc", "extract_exch", "extract_fails_when_t1=0", "extract_ok_next_to_failure", "annex_keys", "id_empty", "id_long", "h1_same_id_all_hids", "ha_r_limb_ladder", "t1_limb_ladder", "t1_carry_chain", "id_beyond_2^16_bits", "extract_id_beyond_2^16_bits", "t2_near_group_order", "t2_table_scalar", "h1_h2_length_sweep"]);
     let pr = r9::params();
     let nm1 = &pr.n - 1u32;
     let two320: BigUint = BigUint::one() << 320;
@@ -283,6 +283,61 @@ pub fn run(ctx: &mut Ctx) {
             }
             }
         }
+    }
+    // --- master key solved so that the extracted scalar t2 is (j+1) * 2^(7i): the signing-key extraction then reads exactly
+    // one entry of the fixed-base table of P1 (37 x 64 entries)
+    {
+        let mut pl = ctx.prng("t2_table");
+        let mut ti = 0u64;
+        for i in 0..37usize {
+            for j in 0..64u64 {
+                ti += 1;
+                let idl = pl.range(1, 10);
+                let id = pl.bytes(idl);
+                if !ctx.mine(ti) {
+                    continue;
+                }
+                let t2 = BigUint::from(j + 1) << (7 * i);
+                if t2 >= pr.n || t2.is_one() {
+                    continue;
+                }
+                let h = r9::h1(&id, 1);
+                let one_minus = (&pr.n + 1u32 - &t2) % &pr.n;
+                let Some(inv) = one_minus.modinv(&pr.n) else { continue };
+                let k = (&t2 * &h % &pr.n) * inv % &pr.n;
+                if k.is_zero() || r9::extract_scalar(&k, &id, 1) != Some(t2.clone()) {
+                    continue;
+                }
+                ctx.class("t2_table_scalar");
+                extract_case(ctx, &k, &id, 1, "t2_table_scalar");
+            }
+        }
+        ctx.exhaustive("extracted scalar t2 = (j+1)*2^(7i) for all 37 x 64 table positions (signing keys)", true);
+    }
+    // --- every identity length 0..=200 (H1 input lengths take every residue modulo the hash block size) and every
+    // message length 0..=200 for H2 with a fixed 384-byte w
+    {
+        let mut pl = ctx.prng("len_sweep");
+        let w = pl.bytes(384);
+        for len in 0..=200usize {
+            let v = pl.bytes(len);
+            if !ctx.mine(len as u64) {
+                continue;
+            }
+            ctx.eval();
+            ctx.class("h1_h2_length_sweep");
+            for hid in [1u8, 2, 3] {
+                match guard(|| hk::hash1(&v, hid)) {
+                    Outcome::Ret(x) if r9::from_limbs(&x) == r9::h1(&v, hid) => {}
+                    o => ctx.violation(&format!("H1:length_sweep:{}", if o.is_ret() { "wrong-value" } else { o.class() }), json!({"id_len": len, "hid": hid})),
+                }
+            }
+            match guard(|| hk::hash2(&v, &w)) {
+                Outcome::Ret(x) if r9::from_limbs(&x) == r9::h2(&v, &w) => {}
+                o => ctx.violation(&format!("H2:length_sweep:{}", if o.is_ret() { "wrong-value" } else { o.class() }), json!({"msg_len": len})),
+            }
+        }
+        ctx.exhaustive("H1 identity lengths and H2 message lengths 0..=200", true);
     }
     // --- master key crafted so that the 256-bit addition H1 + k ripples a carry through limbs that are all ones
     // (in the sum, or in k itself) or zero
